@@ -336,6 +336,33 @@ theorem expr_matches (cp : Bool) (env : Nat → Nat × Int)
               · simp only [spoxExpr, hsl, hsr, hd, he]
           · simp [hint] at h
 
+
+/-! ## Scoping: after any blocks the previous settings are in force again -/
+
+theorem probesList_append (cur : Option (Bool × Bool)) (xs ys : List Scoped) :
+    probesList cur (xs ++ ys) = probesList cur xs ++ probesList cur ys := by
+  induction xs with
+  | nil => simp [probesList]
+  | cons x xs ih => simp [probesList, ih, List.append_assoc]
+
+/-- **After any sequence of blocks — nested to any depth, recursive, sharing settings or not — a probe
+    sees the settings that were in force before them.** -/
+theorem scoped_restored (cur : Option (Bool × Bool)) (xs : List Scoped) :
+    probesList cur (xs ++ [.probe]) = probesList cur xs ++ [cur] := by
+  rw [probesList_append]; simp [probesList, Scoped.probes]
+
+/-- Outside all blocks, after any history of blocks, every operator raises TypeError. -/
+theorem outside_after_blocks (np : NpInfo) (xs : List Scoped) (op : Op) (a b : Operand) :
+    (probesList none (xs ++ [.probe])).getLast? = some none ∧
+      dispatch np none op a b = .error .typeError := by
+  rw [scoped_restored]; simp [outside_block_typeerror]
+
+/-- Inside an enclosing block with settings `s`, after any inner blocks (with whatever settings), the
+    enclosing block's rules apply again. -/
+theorem enclosing_after_inner (cur : Option (Bool × Bool)) (s : Bool × Bool) (xs : List Scoped) :
+    (Scoped.probes cur (.block s (xs ++ [.probe]))).getLast? = some (some s) := by
+  simp only [Scoped.probes]; rw [scoped_restored]; simp
+
 /-- unary minus on signed integer Vars: numpy's value for every operand value (wrap-around at INT_MIN) -/
 theorem neg_matches (s : Bool × Bool) (d : Nat) (hd : d ∈ [0, 1, 2, 3]) (x : Int) :
     dispatch info (some s) .neg (.var d) .other = .ok (.un .Neg (.arg 0), d) ∧
